@@ -379,3 +379,124 @@ func (p *Pool) Put(x any) {
 		s.schedPoint()
 	}
 }
+
+// Map is a simulated sync.Map: every method is one atomic step preceded by a
+// scheduling point (the internal mutex provides both, and the happens-before
+// edges the race detector expects). Range visits the entries in insertion
+// order, so that it is deterministic.
+type Map struct {
+	mu    Mutex
+	m     map[any]any
+	order []any
+}
+
+func (m *Map) Load(key any) (value any, ok bool) {
+	m.mu.Lock()
+	defer m.mu.Unlock()
+	value, ok = m.m[key]
+	return
+}
+
+func (m *Map) storeLocked(key, value any) {
+	if m.m == nil {
+		m.m = map[any]any{}
+	}
+	if _, ok := m.m[key]; !ok {
+		m.order = append(m.order, key)
+	}
+	m.m[key] = value
+}
+
+func (m *Map) deleteLocked(key any) {
+	if _, ok := m.m[key]; !ok {
+		return
+	}
+	delete(m.m, key)
+	for i, k := range m.order {
+		if k == key {
+			m.order = append(m.order[:i:i], m.order[i+1:]...)
+			break
+		}
+	}
+}
+
+func (m *Map) Store(key, value any) {
+	m.mu.Lock()
+	defer m.mu.Unlock()
+	m.storeLocked(key, value)
+}
+
+func (m *Map) Clear() {
+	m.mu.Lock()
+	defer m.mu.Unlock()
+	m.m, m.order = nil, nil
+}
+
+func (m *Map) LoadOrStore(key, value any) (actual any, loaded bool) {
+	m.mu.Lock()
+	defer m.mu.Unlock()
+	if v, ok := m.m[key]; ok {
+		return v, true
+	}
+	m.storeLocked(key, value)
+	return value, false
+}
+
+func (m *Map) LoadAndDelete(key any) (value any, loaded bool) {
+	m.mu.Lock()
+	defer m.mu.Unlock()
+	value, loaded = m.m[key]
+	m.deleteLocked(key)
+	return
+}
+
+func (m *Map) Delete(key any) {
+	m.mu.Lock()
+	defer m.mu.Unlock()
+	m.deleteLocked(key)
+}
+
+func (m *Map) Swap(key, value any) (previous any, loaded bool) {
+	m.mu.Lock()
+	defer m.mu.Unlock()
+	previous, loaded = m.m[key]
+	m.storeLocked(key, value)
+	return
+}
+
+func (m *Map) CompareAndSwap(key, old, new any) bool {
+	m.mu.Lock()
+	defer m.mu.Unlock()
+	if v, ok := m.m[key]; ok && v == old {
+		m.m[key] = new
+		return true
+	}
+	return false
+}
+
+func (m *Map) CompareAndDelete(key, old any) bool {
+	m.mu.Lock()
+	defer m.mu.Unlock()
+	if v, ok := m.m[key]; ok && v == old {
+		m.deleteLocked(key)
+		return true
+	}
+	return false
+}
+
+// Range calls f for a snapshot of the entries (sync.Map allows any consistent
+// or inconsistent view for concurrent changes).
+func (m *Map) Range(f func(key, value any) bool) {
+	m.mu.Lock()
+	keys := append([]any{}, m.order...)
+	vals := make([]any, len(keys))
+	for i, k := range keys {
+		vals[i] = m.m[k]
+	}
+	m.mu.Unlock()
+	for i, k := range keys {
+		if !f(k, vals[i]) {
+			return
+		}
+	}
+}
